@@ -53,7 +53,9 @@ ASSUMPTIONS = ["variable names are identifiers and not variables the shells trea
                "the first not a reserved word); other alias values are passed to the shell as they are (eups does not "
                "quote them) and are compared with shEvalF only where its fragment reaches (\"$@\", $@, single quotes, "
                "several commands)",
-               "csh/zsh emission is compared as text only (no csh/zsh binary installed)",
+               "no csh or zsh binary is installed: zsh texts (same commands as sh) are sourced by dash and bash; csh texts are "
+               "compared with the model as text and read by a small csh word reader written from the manual (csh_read: single "
+               "quotes literal, no newline inside) for oracle (ii)",
                "EUPS_LOCK_PID, which lock.takeLocks puts into the process environment for its children before Eups takes "
                "the baseline of the delta, is not part of the computed environment (command-line cases)"]
 
@@ -241,9 +243,9 @@ def gen_emit(rng):
             new.insert(rng.randint(0, len(new)), [k, v])
     shell = "sh"
     r = rng.random()
-    if r < 0.10:
+    if r < 0.14:
         shell = "csh"
-    elif r < 0.15:
+    elif r < 0.20:
         shell = "zsh"
     opts = {"shell": shell, "noaction": rng.random() < 0.12, "verbose2": rng.random() < 0.3,
             "isEups": rng.random() < 0.12, "fwd": rng.random() < 0.6}
@@ -1046,7 +1048,8 @@ def impl_case(case):
     if kind == "cli":
         return impl_cli(case)
     out = impl_emit(case) if kind == "emit" else impl_acts(case)
-    if "cmds" in out and case["opts"]["shell"] == "sh" and shell_safe(case, out):
+    sh_like = case["opts"]["shell"] == "sh" or (case["opts"]["shell"] == "zsh" and not case.get("aliases"))
+    if "cmds" in out and sh_like and shell_safe(case, out):
         base = case["old"] if kind == "emit" else case["base"]
         f0 = funcs0_of(case)
         probed = sorted(set([k for k, _ in f0] + [k for k, _ in out.get("aliases", case.get("aliases", []))] +
@@ -1237,6 +1240,75 @@ def check_functions(ctx, inp, funcs0, aliases, old_aliases, full, noaction, impl
         if bad:
             ctx.fail("sourced_functions_equal_aliases", inp, impl_out, None,
                      note="%s: functions %s: after sourcing %s, expected %s" % (sh, bad, common.jdump(got["fns"])[:300], common.jdump(exp)[:300]))
+
+
+def csh_read(cmds):
+    """What csh does with the emitted commands, read off its manual (no csh binary here): `setenv NAME WORD`,
+    `unsetenv NAME`, `alias NAME 'TEXT'`, `unalias NAME`; a WORD is a run of ordinary characters or a single-quoted string
+    (every character literal; csh has no way to put a quote inside, and an unescaped newline ends the line).
+    Returns (sets, unsets, aliases, unaliases) or None when a command is not of these shapes."""
+    sets, unsets, al, unal = {}, [], {}, []
+
+    def word(w, alias=False):
+        # (an alias text may hold \!*, csh's way of writing "the arguments"; elsewhere ! would be history substitution)
+        if len(w) >= 2 and w[0] == "'" and w[-1] == "'" and "'" not in w[1:-1] and "\n" not in w and (alias or "!" not in w):
+            return w[1:-1]
+        if w and all(c in SAFE for c in w):
+            return w
+        return None
+    for c in cmds:
+        m = re.match(r"^setenv ([A-Za-z_][A-Za-z0-9_]*) (.*)$", c, re.S)
+        if m:
+            v = "" if m.group(2) == "" else word(m.group(2))
+            if v is None:
+                return None
+            sets[m.group(1)] = v
+            continue
+        m = re.match(r"^unsetenv ([A-Za-z_][A-Za-z0-9_]*)$", c)
+        if m:
+            unsets.append(m.group(1))
+            continue
+        m = re.match(r"^alias ([A-Za-z_][A-Za-z0-9_]*) (.*)$", c, re.S)
+        if m and word(m.group(2), alias=True) is not None:
+            al[m.group(1)] = word(m.group(2), alias=True)
+            continue
+        m = re.match(r"^unalias ([A-Za-z_][A-Za-z0-9_]*)$", c)
+        if m:
+            unal.append(m.group(1))
+            continue
+        return None
+    return sets, unsets, al, unal
+
+
+def check_csh(ctx, inp, base, old_after, computed, cmds, is_eups, impl_out):
+    """Oracle (ii) for the csh dialect, at the level of the text: read as csh reads it, the command list takes the caller's
+    environment to the computed one (values over the alphabet, without newline: csh cannot quote one)."""
+    if not claim_of(base, old_after, computed, alphabet_only=True) or \
+            any("\n" in v for k, v in computed if dict(old_after).get(k) != v):
+        ctx.hist("csh:outside-claim")
+        return
+    ctx.hist("csh:in-claim")
+    r = csh_read(cmds)
+    if r is None:
+        ctx.fail("csh_text_reproduces_computed_environment", inp, impl_out, None,
+                 note="a command is not a setenv/unsetenv/alias/unalias of words csh reads literally: %s" % common.jdump(cmds)[:400])
+        return
+    sets, unsets, al, unal = r
+    env = visible(base)
+    env.update(sets)
+    for k in unsets:
+        env.pop(k, None)
+    exp = expected_after_sourcing(base, computed, is_eups)
+    if env != exp:
+        diff = {k: [env.get(k), exp.get(k)] for k in set(env) | set(exp) if env.get(k) != exp.get(k)}
+        ctx.fail("csh_text_reproduces_computed_environment", inp, impl_out, None,
+                 note="{var: [after the csh commands, computed]} = %s" % common.jdump(diff)[:500])
+    want_al = dict((k, re.sub(r'"?\$@"?', r"\\!*", v)) for k, v in inp.get("aliases", [])
+                   if dict((a, b) for a, b in inp.get("oldAliases", [])).get(k) != v)
+    if all(simple_body(v) for v in want_al.values()) and (al != want_al or
+                                                         sorted(unal) != sorted(k for k, _ in inp.get("oldAliases", []) if k not in dict(inp.get("aliases", [])))):
+        ctx.fail("csh_text_reproduces_computed_environment", inp, impl_out, None,
+                 note="aliases: text defines %r and removes %r" % (al, unal))
 
 
 def check_noaction(ctx, inp, base, funcs0, full, impl_out, plain=None):
@@ -1552,7 +1624,11 @@ def evaluate(ctx, cases):
                       "oldAliases": io_["oldAliases"]}
         if mo != io_cmp:
             ctx.disagree("emitted_commands" if mo["cmds"] != io_cmp["cmds"] else "environment_bookkeeping", inp, io_cmp, mo)
+        if kind == "emit" and o["shell"] == "csh" and not o["noaction"]:
+            check_csh(ctx, inp, c["old"], io_["old"], io_["cur"], io_["cmds"], o["isEups"], io_cmp)
         if io_.get("shells") is not None:
+            if o["shell"] == "zsh":
+                ctx.hist("emit:zsh-text-sourced")
             base = c["old"] if kind == "emit" else c["base"]
             compare_shellf_model(ctx, inp, io_["shellsF"], sheval[(i, None)], "emitted", io_["probed"])
             if claim_of(base, io_["old"], io_["cur"]):
@@ -1645,6 +1721,9 @@ def check_floors(ctx):
     if h.get("delta:quoted-value-with-shell-special-text", 0) < 150:
         raise common.InfraError("degenerate distribution: %d deltas write a quoted value that also holds $NAME, a backquote, a "
                                 "backslash or a double quote" % h.get("delta:quoted-value-with-shell-special-text", 0))
+    if h.get("csh:in-claim", 0) < 40 or h.get("emit:zsh-text-sourced", 0) < 20:
+        raise common.InfraError("degenerate distribution: %d csh texts inside the claim, %d zsh texts sourced"
+                                % (h.get("csh:in-claim", 0), h.get("emit:zsh-text-sourced", 0)))
     if h.get("quoted-value", 0) < 0.2 * max(1, h.get("kind=emit", 0)):
         raise common.InfraError("degenerate distribution: %d cases with a quoted value" % h.get("quoted-value", 0))
 
